@@ -40,6 +40,14 @@ let site_name (s : BinNums.coq_N) : string =
   | 38 -> "gb28181.(*PsUnpacker).FeedRtpBody:slice"
   | 39 -> "gb28181.ps:index"
   | 40 -> "gb28181.(*PsUnpacker).parsePsm:slice"
+  | 50 -> "sdp.items:index"
+  | 51 -> "base.ParseRtmpUrl:slice"
+  | 52 -> "base.parseUrlPath:slice"
+  | 53 -> "hls.(*DefaultPathStrategy).GetRequestInfo:index"
+  | 54 -> "base.(*UrlContext).calcFilenameAndTypeIfNeeded:slice"
+  | 60 -> "rtmp.(*ClientSession).doMsg:explicit"
+  | 61 -> "bele.BeUint32:index"
+  | 62 -> "bele.BeUint16:index"
   | n -> "site" ^ string_of_int n
 
 let panic s = "panic@" ^ site_name s
@@ -161,4 +169,54 @@ let register () =
            "ok " ^ (if outs = [] then "-" else String.concat ";" (Stdlib.List.map show outs))
          | Res.Err _ -> "err-fuel"
          | Res.Panic s -> panic s)
-      | _ -> "bad-args")
+      | _ -> "bad-args");
+  Registry.register "c13.rtmpc" (function
+      | [_; t; p] ->
+        (match NetRtmpClient.client_do_msg fx (n_of_token t) (bytes_of_token p) with
+         | Res.Ok NetRtmpClient.RcAmf -> "amf"
+         | Res.Ok (NetRtmpClient.RcOk w) -> "ok " ^ token_of_bytes w
+         | Res.Err _ -> "err"
+         | Res.Panic s -> panic s)
+      | _ -> "bad-args");
+  Registry.register "c13.rtpmap" (function
+      | [l] ->
+        (match NetSdpRaw.parse_a_rtpmap (bytes_of_token l) with
+         | Res.Ok r -> let open NetSdpRaw in
+           Printf.sprintf "ok %s %s %s %s" (token_of_z r.rm_pt) (token_of_bytes r.rm_name) (token_of_z r.rm_clock) (token_of_bytes r.rm_params)
+         | Res.Err _ -> "err"
+         | Res.Panic s -> panic s)
+      | _ -> "bad-args");
+  Registry.register "c13.fmtp" (function
+      | [l] ->
+        (match NetSdpRaw.parse_a_fmtp (bytes_of_token l) with
+         | Res.Ok (f, m) ->
+           let kv = Stdlib.List.sort compare (Stdlib.List.map (fun (k, v) -> token_of_bytes k ^ "=" ^ token_of_bytes v) m) in
+           Printf.sprintf "ok %s %s" (token_of_z f) (if kv = [] then "-" else String.concat ";" kv)
+         | Res.Err _ -> "err"
+         | Res.Panic s -> panic s)
+      | _ -> "bad-args");
+  Registry.register "c13.sdpm" (function
+      | [l] ->
+        (match NetSdpRaw.parse_m (bytes_of_token l) with
+         | Res.Ok (m, pt) -> Printf.sprintf "ok %s %s" (token_of_bytes m) (token_of_z pt)
+         | Res.Err _ -> "err"
+         | Res.Panic s -> panic s)
+      | _ -> "bad-args");
+  Registry.register "c13.rtmpurl" (function
+      | [t] ->
+        (match NetUrlPath.parse_rtmp_url fx (bytes_of_token t) with
+         | Res.Ok u -> let open NetUrlPath in
+           Printf.sprintf "ok %s %s %s %s" (token_of_bytes u.u_path) (token_of_bytes u.u_pwli) (token_of_bytes u.u_last) (token_of_bytes u.u_query)
+         | Res.Err _ -> "err"
+         | Res.Panic s -> panic s)
+      | _ -> "bad-args");
+  Registry.register "c13.hlsreq" (function
+      | [t] ->
+        (match NetUrlPath.hls_request_info (bytes_of_token t) with
+         | Res.Ok ((sn, fn), ft) -> Printf.sprintf "ok %s %s %s" (token_of_bytes sn) (token_of_bytes fn) (token_of_bytes ft)
+         | Res.Err _ -> "err"
+         | Res.Panic s -> panic s)
+      | _ -> "bad-args");
+  (* unmodelled library surfaces: the model side is the constant "alive" *)
+  Stdlib.List.iter (fun op -> Registry.register op (fun _ -> "alive"))
+    ["c13x.sdp"; "c13x.url"; "c13x.rtmpclient"; "c13x.flvpull"; "c13x.rtsp"; "c13x.rtspws"; "c13x.rtspclient"; "c13x.api"; "c13x.http"]
